@@ -3,8 +3,10 @@ from props import mmr_common as mc
 
 ID = "C05"
 GEN_TAGS = []
-PROOF_TARGETS = ["proofs/MmrProofs.vo", "proofs/MmrSmall.vo", "proofs/MmrUpdates.vo", "proofs/MmrBatch.vo", "proofs/MmrHistory.vo"]
+PROOF_TARGETS = ["proofs/MmrProofs.vo", "proofs/MmrSmall.vo", "proofs/MmrUpdates.vo", "proofs/MmrBatch.vo", "proofs/MmrHistory.vo",
+                 "proofs/MmrAppend.vo"]
 PROPS_FILE = "props/C05.v"
+EXTRA_PROPS_FILES = ["props/C05b.v"]
 EXTRACT = "extract/ExtractMmr.vo"
 ORACLE = ("gen_mmr", "mmr.ml")
 HARNESS = "mmr"
